@@ -317,6 +317,45 @@ fn scale(w: &mut Worker, rig: &Rig) {
     }
 }
 
+/// An alias stands for its command wherever it is invoked: at the bottom of a recursion that runs through
+/// condition position (`if walk ...` inside walk), of every threshold depth, the alias and the direct
+/// call of the same command give the same result - an alias of a command, an alias of an alias, an
+/// alias in condition position.
+fn alias_under_nesting(w: &mut Worker) {
+    let depths: Vec<usize> = crate::util::with_thresholds_usize(w.tier.pick(vec![1, 10, 70, 300], vec![1, 10, 70, 300, 600]), w.tier.pick(256, 512));
+    for &d in &depths {
+        for how in ["condition", "assignment", "statement"] {
+            let call = match how {
+                "condition" => "if walk ${n}\nreturn true\nend\nreturn false",
+                "assignment" => "sub = walk ${n}\nreturn ${sub}",
+                _ => "walk ${n}\nreturn true",
+            };
+            let text = format!(
+                "fn walk\nif equals ${{1}} 0\ndirect = equals a a\nvia = same_text a a\ndirect_no = equals a b\nvia_no = same_text a b\nd2 = concat x y\nv2 = joined x y\nv3 = deep x y\nif same_text a a\nbranch = set then\nelse\nbranch = set else\nend\nif same_text a b\nbranch_no = set then\nelse\nbranch_no = set else\nend\nreturn true\nend\nn = calc ${{1}} - 1\n{}\nend\nalias same_text equals\nalias joined concat\nalias deep joined\nr = walk {}\nafter = same_text a a",
+                call, d
+            );
+            crate::util::scale_case(
+                w,
+                &format!("alias-under-nesting depth {} through {}", d, how),
+                &text,
+                &[
+                    ("direct", Some("true".into())),
+                    ("via", Some("true".into())),
+                    ("direct_no", Some("false".into())),
+                    ("via_no", Some("false".into())),
+                    ("d2", Some("xy".into())),
+                    ("v2", Some("xy".into())),
+                    ("v3", Some("xy".into())),
+                    ("branch", Some("then".into())),
+                    ("branch_no", Some("else".into())),
+                    ("r", Some("true".into())),
+                    ("after", Some("true".into())),
+                ],
+            );
+        }
+    }
+}
+
 /// The branch taken follows the direct call's output, whatever the predicate's body looks like: a user
 /// function that returns a value, returns its argument, falls off its end or returns bare after a
 /// command that produced a (truthy) output of its own.
@@ -484,6 +523,7 @@ pub fn worker(w: &mut Worker) {
     scale(w, &rig);
     aftermath(w, &rig);
     branch_follows_output(w, &rig);
+    alias_under_nesting(w);
     let vl = tier.pick(3usize, 4usize);
     let mut values: Vec<String> = Strings::new(&SIGMA[..], 0, vl).map(|v| v.concat()).collect();
     for s in SPECIAL {
@@ -552,6 +592,11 @@ pub fn replay(case: &Value) -> Result<String, String> {
         let rig = Rig::new();
         return Ok(format!("{:?}", rig.run_after(case["script"].as_str().unwrap_or(""), case["value"].as_str().unwrap_or(""))));
     }
+    if case["kind"].as_str() == Some("scale") && case.get("wrapper").is_none() {
+        if let Some(r) = crate::util::scale_replay(case) {
+            return r;
+        }
+    }
     if case["kind"].as_str() == Some("scale") {
         let rig = Rig::new();
         let got = rig.run_text(case["script"].as_str().unwrap_or(""), case["value"].as_str().unwrap_or(""));
@@ -578,7 +623,7 @@ pub fn crash_sig(case: &Value, kind: &str) -> String {
     format!("{}:{}:{}", kind, case["wrapper"].as_str().unwrap_or("?"), class_of(case["value"].as_str().unwrap_or("")))
 }
 
-pub const RULE: &str = "values: every string up to the length bound over {a SP \" # \\\\ $ { } % LF CR = TAB e-acute} plus 8 special values (${v}, %{v}, \\\\${v}, ${w}, 'a b', '\"a b\"', 'a  b', x=y), held in a variable and written as ${v} in first or second argument position of a capture command invoked directly, as the condition of if / elseif / while, under not, through an alias that stores the value, through an alias that is passed the value, through a user function used as predicate, through aliases whose target is `not <predicate>` (value passed or stored), and through an alias that stores the value and whose name a second alias definition then tries to take (refused); also wrappers inside wrappers (if not, while not, not not, an alias in condition position, an alias of an alias, an elseif behind a failed elseif); every wrapping line both at the top level of the script and inside the body of a user function that was itself called with two arguments. Branch family: for six predicate bodies (returning true / its argument / false after a truthy command output, falling off the end or returning bare after a command that produced an output) x plain and <scope> x 7 values the branch taken by if / elseif / while / not / an alias is the one the direct call's output dictates. Aftermath family: behind `if / elseif / while / not <user function> ${v} z` (plain and <scope> function, at top level and inside a called function, 6 values) a probe receives ${1} ${2} ${v} and a caller variable exactly as it does behind the direct call. Scale cases: 302 (thorough 3002) arguments, the first and last a value of 5000 (thorough 100000) characters of such text, through the direct call and seven wrappers. Oracle: the arguments received through the wrapper equal those received by the direct call. A failing case is classified by whether the received arguments equal what re-serialising the values into a line and parsing/binding it again yields (the recorded defect, one signature per input class) or not (a new violation). Non-trivial: the value contains a character other than plain letters. Branch families: 11 predicate bodies (5 of them with blocks of their own: inner if returning, falling through, if/else, a loop left by return, calls of library scripts) x 7 values x plain / scoped x 11 wrapping shapes, 6 of which go on behind the wrapped call (else, elseif, a second elseif, inside a while): exactly the branch decided by the direct call is taken, and the script reaches its last line. Three more wrappers: chains of aliases that store part of the arguments themselves (inner, both, three levels). Branch family also re-enters an alias: applied to itself, and around a function whose body uses it";
+pub const RULE: &str = "values: every string up to the length bound over {a SP \" # \\\\ $ { } % LF CR = TAB e-acute} plus 8 special values (${v}, %{v}, \\\\${v}, ${w}, 'a b', '\"a b\"', 'a  b', x=y), held in a variable and written as ${v} in first or second argument position of a capture command invoked directly, as the condition of if / elseif / while, under not, through an alias that stores the value, through an alias that is passed the value, through a user function used as predicate, through aliases whose target is `not <predicate>` (value passed or stored), and through an alias that stores the value and whose name a second alias definition then tries to take (refused); also wrappers inside wrappers (if not, while not, not not, an alias in condition position, an alias of an alias, an elseif behind a failed elseif); every wrapping line both at the top level of the script and inside the body of a user function that was itself called with two arguments. Branch family: for six predicate bodies (returning true / its argument / false after a truthy command output, falling off the end or returning bare after a command that produced an output) x plain and <scope> x 7 values the branch taken by if / elseif / while / not / an alias is the one the direct call's output dictates. Aftermath family: behind `if / elseif / while / not <user function> ${v} z` (plain and <scope> function, at top level and inside a called function, 6 values) a probe receives ${1} ${2} ${v} and a caller variable exactly as it does behind the direct call. Scale cases: 302 (thorough 3002) arguments, the first and last a value of 5000 (thorough 100000) characters of such text, through the direct call and seven wrappers. Oracle: the arguments received through the wrapper equal those received by the direct call. A failing case is classified by whether the received arguments equal what re-serialising the values into a line and parsing/binding it again yields (the recorded defect, one signature per input class) or not (a new violation). Non-trivial: the value contains a character other than plain letters. Branch families: 11 predicate bodies (5 of them with blocks of their own: inner if returning, falling through, if/else, a loop left by return, calls of library scripts) x 7 values x plain / scoped x 11 wrapping shapes, 6 of which go on behind the wrapped call (else, elseif, a second elseif, inside a while): exactly the branch decided by the direct call is taken, and the script reaches its last line. Three more wrappers: chains of aliases that store part of the arguments themselves (inner, both, three levels). Branch family also re-enters an alias: applied to itself, and around a function whose body uses it. Alias under nesting: at the bottom of a recursion of every threshold depth up to 300 (thorough 600) that runs through condition position, an assignment or a statement, an alias of a command, an alias of an alias and an alias in condition position give what the direct call gives";
 pub const ASSUMPTIONS: &[&str] = &["the capture command returns true on its first call and false afterwards (so a while loop ends)", "classification of known findings uses the real parser and binder on a transcription of the line building in utils/eval.rs"];
 pub const EXHAUSTIVE: bool = true;
 pub const WALL_CAP_S: (u64, u64) = (55, 1500);
